@@ -291,6 +291,8 @@ def template_cond(draw, ctx: Ctx, force=None):
         T += ["indep_and_or3", "indep_and_or3", "indep_and_join3"]
     T += ["same_var_or", "not_over_and", "not_over_or", "and_of_ors_samevar"] if cfg.allow_not else \
         ["same_var_or", "and_of_ors_samevar"]
+    if cfg.allow_truth and cfg.allow_not and "starts" not in cfg.exclude_leaves:
+        T += ["truth_then_nested_use"]
     if n >= 2:
         T += [t_ for t_ in cfg.extra_templates if n >= 3 or not t_.startswith("indep_")]
     t = force or draw(st.sampled_from(T))
@@ -316,6 +318,15 @@ def template_cond(draw, ctx: Ctx, force=None):
         if chance(draw, 1, 4):
             parts.reverse()
         return ["and", f(), parts]
+    if t == "truth_then_nested_use":
+        # s = x.s used as a bare condition and then beneath another expression that holds for the falsy value:
+        # and_(s, not_(s.startswith('y'))) - with shared expression objects the second use re-parents the first
+        x = draw(st.integers(0, n - 1))
+        T_ = ["attr", ent_term(draw, ctx, x) if chance(draw, 1, 3) else ["var", x], "s"]
+        second = draw(st.sampled_from([["not", "not_", ["truth", ["call", T_, "startswith", [draw(st.sampled_from(["x", "y"]))]]]],
+                                       ["not", "not_", ["in", "in_", ["const", draw(st.sampled_from(["x", "y"]))], T_]],
+                                       ["cmp", "!=", T_, ["const", draw(st.sampled_from(["x", "xy"]))]]]))
+        return ["and", f(), [["truth", T_], second]]
     if t == "not_and_then_other":
         # not(a(x) & b(y)) & c(y) - the disjunction De Morgan makes of the negated conjunction stands left of a condition
         # on y - or not((a(x) & b(y)) | not c(y))
